@@ -9,7 +9,7 @@ Theorem C04_emitted_once :
   forall p r m inputs outputs, build_checked p r = inl m ->
   all_vars (r_inputs r) = Some inputs -> all_vars (r_outputs r) = Some outputs ->
   NoDup (srcs_graph (mmain m)) /\
-  forall u, In u (srcs_graph (mmain m)) <-> In u (reachable (with_main p (Some (main_args inputs)) outputs) 0).
+  forall u, In u (srcs_graph (mmain m)) <-> In u (reachable (final_prog p r inputs outputs) 0).
 Proof. intros p r m i o H Hi Ho. apply build_checked_inv in H. destruct H as [_ Hv].
   exact (emitted_exactly_once p r m i o Hi Ho Hv). Qed.
 Print Assumptions C04_emitted_once.
@@ -19,7 +19,7 @@ Print Assumptions C04_emitted_once.
 Theorem C04_placement_innermost :
   forall p r m inputs outputs, build_checked p r = inl m ->
   all_vars (r_inputs r) = Some inputs -> all_vars (r_outputs r) = Some outputs ->
-  let p' := with_main p (Some (main_args inputs)) outputs in
+  let p' := final_prog p r inputs outputs in
   let paths := paths_graph [] (mmain m) in
   forall u pu, In (NReal u, pu) paths ->
   let cps := flat_map (fun w => match lookup nref_eqb w paths with Some q => [q] | None => [] end)
@@ -34,7 +34,7 @@ Print Assumptions C04_placement_innermost.
 Theorem C04_def_before_use :
   forall p r m inputs outputs, build_checked p r = inl m ->
   all_vars (r_inputs r) = Some inputs -> all_vars (r_outputs r) = Some outputs ->
-  let p' := with_main p (Some (main_args inputs)) outputs in
+  let p' := final_prog p r inputs outputs in
   wf (is_argP p') (insP p' 0) (subsP p' 0) (gargsP p') (gresP p') (noutsP p') (plan_of_graph p' 0 (mmain m)) [] [].
 Proof. intros p r m i o H Hi Ho p'. apply build_checked_inv in H. destruct H as [_ Hv].
   pose proof (plan_checked p r m i o Hi Ho Hv) as Hc. unfold check_plan in Hc. apply andb_prop in Hc. destruct Hc as [_ Hw].
